@@ -453,3 +453,4 @@ MANIFEST = {
             "Assumes fitted origins are (row, col) pairs.",
     "technique": "kinded-axis abstract interpretation (axis/extent/pair kinds) + sibling-arm agreement (AST)",
 }
+MANIFEST["text"] += ' Also: numerator and normalising total read the same version of the weights (no rebinding in between); every normalised coordinate has passed a periodic wrap; inferred scan positions are laid out (scan axis 0, scan axis 1) like the measured origins.'
